@@ -56,6 +56,8 @@ REFMODE = [
     (["@unmarked"], []),
     (["@marked:(grpc server impl)"], []),
     (["Basic/**"], ["@marked:(grpc client impl)", "@unmarked"]),
+    # a suite as --test-file could give it: test cases named like the suite and like a piece of an earlier name element
+    (["Echo/**"], []),
 ]
 
 
@@ -90,6 +92,8 @@ def reference_mode(ctx, only=None):
                 raise vf.Machinery(r["err"])
             if r.get("hang"):
                 bad[i] = ("hang", "reference-mode run did not end within 4 minutes")
+            elif r.get("misnamed"):
+                bad[i] = ("marked-name", "gRPC-peer permutations not under the marked name of the permutation they come from: %s" % r["misnamed"][:4])
             elif r.get("err"):
                 # patterns are chosen so that each matches something; an error here is itself a wrong selection
                 bad[i] = ("refmode-error", "reference-mode run failed: %s" % r["err"])
